@@ -3,7 +3,7 @@
    pyrex/generation.py on every run with the np.random draws as parameters u1 u2 ... (Gen/Gen_generation.v);
    box_exit_points / cyl_side_points / create_event / l_step are the pinned hand model
    (Model/GeneratorModel.v). *)
-From Coq Require Import Reals List Bool ZArith.
+From Coq Require Import Reals List Bool ZArith Lia.
 From PyrexLib Require Import RealPrims.
 From PyrexModel Require Import GeneratorModel.
 From PyrexGen Require Import Gen_generation.
@@ -220,3 +220,31 @@ Proof.
   - apply l_count_set.
 Qed.
 Print Assumptions list_count.
+
+(* --- energies from the supplied source, exactly, for stateful sources ------------------------- *)
+(* for ALL histories of create_event calls (with any numbers of rejected throws), direct get_energy()
+   calls and count assignments: the source has been called exactly once per throw (rejected ones
+   included) plus once per direct call -- and not at construction (g_init is at position 0) ... *)
+Theorem energy_source_called_once_per_throw : forall ops s,
+  g_pos (fst (g_run s ops)) = (g_pos s + sumZ source_calls ops)%Z /\
+  (List.Forall (fun o => match o with SetCountG _ => False | _ => True end) ops ->
+   g_count (fst (g_run s ops)) = (g_count s + sumZ op_throws ops)%Z).
+Proof. intros ops s. split; [apply g_run_pos|apply g_run_count]. Qed.
+Print Assumptions energy_source_called_once_per_throw.
+
+(* ... every event carries the value drawn in its own accepted throw, and a direct call returns the
+   next value ... *)
+Theorem energy_source_step : forall s r,
+  g_step s (Throws r) = (mkG (g_pos s + (Z.of_nat r + 1)) (g_count s + (Z.of_nat r + 1)),
+                         GEvent (g_pos s + Z.of_nat r) (g_count s + (Z.of_nat r + 1))) /\
+  g_step s DirectEnergy = (mkG (g_pos s + 1) (g_count s), GEnergy (g_pos s)).
+Proof. intros. split; reflexivity. Qed.
+Print Assumptions energy_source_step.
+
+(* ... so with create_event calls only, throw number k overall uses the k-th value of the source *)
+Theorem kth_throw_uses_kth_energy : forall c0 ops, only_throws ops ->
+  List.Forall (event_matches c0) (snd (g_run (g_init c0) ops)).
+Proof.
+  intros c0 ops H. apply (g_run_kth c0 ops (g_init c0) H). unfold g_init; cbn. lia.
+Qed.
+Print Assumptions kth_throw_uses_kth_energy.
